@@ -972,14 +972,25 @@ class _ExecutorManagerThread(threading.Thread):
         with self.processes_management_lock:
             mp.util.debug(f"joining {len(self.processes)} processes")
             n_joined_processes = 0
-            while True:
-                try:
-                    pid, p = self.processes.popitem()
+            while self.processes:
+                # A worker that died abruptly can leave the locks of the
+                # queues in a dirty state, in which case the other workers
+                # never read their sentinel. Join the workers as they exit
+                # and kill the remaining ones if one of them did not exit
+                # cleanly: there is no pending work at this point.
+                sentinels = {p.sentinel: pid for pid, p in self.processes.items()}
+                for sentinel in wait(list(sentinels)):
+                    pid = sentinels[sentinel]
+                    p = self.processes.pop(pid)
                     mp.util.debug(f"joining process {p.name} with pid {pid}")
                     p.join()
                     n_joined_processes += 1
-                except KeyError:
-                    break
+                    if p.exitcode != 0:
+                        n_joined_processes += len(self.processes)
+                        self.kill_workers(
+                            reason="a worker died abruptly during shutdown"
+                        )
+                        break
 
             mp.util.debug(
                 "executor management thread clean shutdown of "
